@@ -222,10 +222,6 @@ func gridSurface(k, l int, klein bool) *soup3 {
 	for i := 0; i < k; i++ {
 		for j := 0; j < l; j++ {
 			a, b, c2, d := id(i, j), id(i+1, j), id(i+1, j+1), id(i, j+1)
-			if j == l-1 && klein {
-				// neighbours of the reflected row
-				c2, d = id(i+1, l), id(i, l)
-			}
 			s.faces = append(s.faces, [3]int{a, b, c2}, [3]int{a, c2, d})
 		}
 	}
@@ -245,11 +241,11 @@ func (s *soup3) nondegenerate() {
 }
 
 func canonFace(f [3]int) [3]int {
-	for f[0] > f[1] || f[0] > f[2] {
-		f = [3]int{f[1], f[2], f[0]}
-		if f[0] <= f[1] && f[0] <= f[2] {
-			break
-		}
+	if f[1] < f[0] && f[1] <= f[2] {
+		return [3]int{f[1], f[2], f[0]}
+	}
+	if f[2] < f[0] && f[2] < f[1] {
+		return [3]int{f[2], f[0], f[1]}
 	}
 	return f
 }
